@@ -163,7 +163,7 @@ C16 = Prop(
          "map insert-then-lookup over grids; seeded random values incl. one-leaf differences. The harness prints each "
          "leaf's std::hash, so the model predicts the exact 64-bit combined hash. Non-trivial: at least two leaves. "
          "Distinct = distinct case line. " \
-                "Every mix-in comparison also overwrites a hashed copy of x member by member with y's members (through as_tuple()) and demands hash and operators of the value it now holds; the set family fills a second set through one reused scratch key; 40 (thorough: 200) pairs of unequal (int64, uint64, double) values whose combined hashes collide, solved from the combiner. Order clause: two values whose leaf hashes are a transposition of each other (two components exchanged) must hash differently.",
+                "Every mix-in comparison also overwrites a hashed copy of x member by member with y's members (through as_tuple()) and demands hash and operators of the value it now holds; the set family fills a second set through one reused scratch key; 40 (thorough: 200) pairs of unequal (int64, uint64, double) values whose combined hashes collide, solved from the combiner. Order clause (a statement about the family, \"up to rare collisions\"): of the pairs whose leaf hashes are a transposition of each other (two components exchanged) at most a quarter may collide.",
     harness=HARNESS, search=lambda dis, rng: gen_c16("thorough", rng),
     theorem_hint="NitroVerif.Props.C16.{eq_hash,ops_agree_with_lex,trichotomy,order_trans,six_consistent,combine_inj,"
                  "tuple_last_injective,pair_second_injective,order_matters}",
@@ -182,3 +182,18 @@ C16 = Prop(
                  "NaN is excluded (no lawful order)"],
 )
 C16.model_input = model_input
+
+
+def _order_clause(cases, verdicts, feats):
+    """'The hash depends on component order (up to rare collisions)': of the pairs of a run whose leaf hashes are a
+    transposition of each other at most a quarter may collide (the boost-style mixer does collide on a few structured
+    small-integer pairs across nesting levels; a combiner that ignores order collides on all of them)."""
+    ex = [i for i, f in enumerate(feats) if "two-components-exchanged" in f]
+    col = [i for i in ex if "exchange-collision" in feats[i]]
+    if len(ex) >= 4 and 4 * len(col) > len(ex):
+        return {i: "bad:exchanging-two-components-does-not-change-the-hash(%d-of-%d-exchanged-pairs-collide)" % (len(col), len(ex))
+                for i in col}
+    return {}
+
+
+C16.aggregate = _order_clause
